@@ -245,6 +245,14 @@ def r6_tab_separated_only(ctx, res):
         if st.func.attr != 'rstrip' or a not in (["'\\r\\n'"], ["'\\n'"], ['"\\r\\n"'], ['"\\n"'], ["'\\n\\r'"]):
             res.find(key, ld.module.loc(st), f'_ili.load strips with `{norm(st)[-40:]}`: removing more than the line terminator drops an empty '
                                              f'trailing definition field (or leading whitespace of the ILI id)')
+    # records: one per line of the file as text-file iteration delimits it (\n, \r\n, \r); str.splitlines() also breaks at
+    # \x0b \x0c \x1c-\x1e \x85 \u2028 \u2029, which may occur inside a definition
+    key = 'ili-records-are-file-lines'
+    sl = [n for n in walk_no_nested(ld.node) if isinstance(n, ast.Call) and isinstance(n.func, ast.Attribute) and n.func.attr == 'splitlines']
+    res.inst(key, loc, f'{len(sl)} splitlines() calls')
+    for n_ in sl:
+        res.find(key, ld.module.loc(n_), '_ili.load delimits records with str.splitlines(): it breaks at U+000B, U+000C, U+001C-1E, U+0085, U+2028 and '
+                                         'U+2029 as well, so a definition containing one of them is cut and its tail becomes a spurious ILI')
 
 
 RULES = [
@@ -253,5 +261,5 @@ RULES = [
     ('C19-R3', r3_no_other_ilis_writer, 5),
     ('C19-R4', r4_one_transaction, 1),
     ('C19-R5', r5_header, 2),
-    ('C19-R6', r6_tab_separated_only, 2),
+    ('C19-R6', r6_tab_separated_only, 3),
 ]
